@@ -280,11 +280,89 @@ def linLine (t : String) : String :=
     | _, _ => "BADOP events"
   | _ => "BADOP lin"
 
+/-! ### run `copy`: output produced while the evaluation is cancelled
+
+  `copy <method> <flat|nest> cs=<n> n=<n> k=<n>` TAB `c=<chunk lengths>;pre=<bytes in the sink when the
+  cancellation was processed>;post=<bytes accepted after it>;err=<nil|canceled|…>;pfx=<0|1>`.
+  Model: `copyLen` (= `Writer.copyFrom` on lengths, `copy_len_abstraction`) over the real writer chain
+  and contexts, cancellation after `k` chunks. Methods whose `Write` calls are the source's chunks
+  are compared with the model exactly (`pre` = model's `written`, `post` = 0, `err`); for the
+  buffering ones (bufio) the chunks seen by the CtxWriter are not the source's: `pre` ≤ what the source
+  had delivered, `post` = 0. Property predicate (independent of the model): nothing after the chunk
+  in flight — `post` ≤ the largest chunk — and the sink holds a prefix of the source. -/
+
+def copyExact : List String :=
+  ["copy", "copybuf", "copyn", "copybits", "copybitsbuf", "readerfrom", "writestring", "fprintf",
+   "stringwriter", "write"]
+def copyBuffered : List String := ["bufio", "bufiocopy"]
+
+def kv (pfx : String) (w : String) : Option Nat :=
+  if w.startsWith pfx then (w.drop pfx.length).toNat? else none
+
+def kvs (pfx : String) (w : String) : Option String :=
+  if w.startsWith pfx then some (w.drop pfx.length).toString else none
+
+def copyLine (method wr : String) (k : Nat) (obs : String) : String :=
+  if obs.startsWith "panic:" then s!"PROPFAIL {obs}"
+  else if obs.startsWith "invalid:" then s!"BADOP {obs}"
+  else match obs.splitOn ";" with
+  | [c, pre, post, err, pfx] =>
+    match kvs "c=" c, kv "pre=" pre, kv "post=" post, kvs "err=" err, kv "pfx=" pfx with
+    | some c, some pre, some post, some err, some pfx =>
+      match (if c == "-" then some [] else (c.splitOn ",").mapM String.toNat?) with
+      | none => "BADOP chunk list"
+      | some chunks =>
+        -- the writer chain and the contexts as the harness builds them
+        let (cB, w, top) : Ctxs × Writer × Nat :=
+          if wr == "nest" then
+            ((Ctxs.empty.withCancel none).withCancel (some 0), Writer.ctx (some 1) (Writer.ctx (some 0) .sink), 1)
+          else (Ctxs.empty.withCancel none, Writer.ctx (some 0) .sink, 0)
+        let cA := cB.cancel top
+        let (mw, merr) := copyLen (fun j => w.passes (ctxAt cB cA (some k) j)) 0 chunks 0
+        let inflight := chunks.foldl max 0
+        let delivered := (chunks.take k).foldl (· + ·) 0
+        -- property predicate
+        if pfx != 1 then "PROPFAIL the bytes in the sink are not a prefix of the source's bytes"
+        else if post > inflight then
+          s!"PROPFAIL {post} bytes reached the sink after the interrupt had cancelled the evaluation (largest chunk {inflight}): output continues after cancellation"
+        else if copyExact.contains method then
+          let merrS := if merr then "canceled" else "nil"
+          if pre == mw && post == 0 && err == merrS then "OK"
+          else s!"DIVERGE model=pre={mw};post=0;err={merrS}"
+        else if copyBuffered.contains method then
+          if post == 0 && pre ≤ delivered then "OK" else s!"DIVERGE model=pre<={delivered};post=0"
+        else "BADOP method"
+    | _, _, _, _, _ => "BADOP obs"
+  | _ => "BADOP obs"
+
+/-- bytes the sink may still accept after the interrupt was processed, end to end: one copy buffer
+    (io.Copy 32 KiB, dump.go's buffer) with margin. Measured on the unchanged tree: 0. -/
+def e2eBound : Nat := 65536
+
+def e2eLine (obs : String) : String :=
+  if obs.startsWith "invalid:" then s!"BADOP {obs}"
+  else match obs.splitOn ";" with
+  | [trig, pre, post, done] =>
+    match kv "trig=" trig, kv "pre=" pre, kv "post=" post, kv "done=" done with
+    | some trig, some _, some post, some done =>
+      if done != 1 then "PROPFAIL Main did not return"
+      else if trig != 1 then "BADOP the interrupt was never delivered (output shorter than K?)"
+      else if post > e2eBound then
+        s!"PROPFAIL {post} bytes were accepted by stdout after the interrupt had been processed (bound {e2eBound}): output continues after cancellation"
+      else if post == 0 then "OK" else "DIVERGE model=post=0"
+    | _, _, _, _ => "BADOP obs"
+  | _ => "BADOP obs"
+
 def stepC20 (op obs : String) : String :=
   match stripNotes (words op) with
   | ["seq", t] => seqLine t obs
   | ["interp", t] => seqLine t obs
   | ["lin", t] => linLine t
+  | ["copy", m, wr, _, _, k] =>
+    match kv "k=" k with
+    | some k => if wr == "flat" || wr == "nest" then copyLine m wr k obs else "BADOP wr"
+    | none => "BADOP k"
+  | ["e2e", _, _] => e2eLine obs
   | _ => "BADOP op"
 
 def main : IO Unit := run stepC20
